@@ -59,6 +59,44 @@ def boundary_days():
     return sorted(out)
 
 
+def evaluator_correspondence(ctx):
+    import random
+    import sys as _sys
+    from harness import session, validate_c17eval as VE
+    if not ctx.build.ok:
+        return
+    progs = VE.gen(ctx.seed if hasattr(ctx, "seed") else 1)
+    rnd = random.Random(1)
+    if not ctx.thorough:
+        progs = rnd.sample(progs, min(len(progs), 1200))
+    old = _sys.get_int_max_str_digits()
+    _sys.set_int_max_str_digits(0)
+    try:
+        outs, whyfail = session.run_lib_sessions([[src] for _, src in progs], legacy=True, fuel=60000)
+        if outs is None:
+            ctx.count("evaluator_date_programs_libsetup_failed")
+            return
+        impl = session.ImplSession(legacy=True)
+        try:
+            for k, (g, src) in enumerate(progs):
+                impl.it.environment.map.clear()
+                out, printed, _ = impl.run(src, limit=20)
+                m = outs[k][0]
+                ctx.seen(("evalprog", src), nontrivial=True)
+                ctx.count("evaluator_date_programs")
+                if m[0][0] == 'fail':
+                    ctx.count("evaluator_date_programs_model_abstains")
+                    continue
+                d = session.compare((out, printed, ()), (m[0], m[1], ()), check_line=True)
+                if d:
+                    ctx.disagreements += 1
+                    ctx.violation("correspondence", f"`{src}`: {d}", {"op": "program", "src": src, "correspondence": "Ckl.callDate / nativeAdd / nativeSub (date arithmetic in the evaluator model) vs FuncAdd / FuncSub / FuncDate / FuncInt"})
+        finally:
+            impl.close()
+    finally:
+        _sys.set_int_max_str_digits(old)
+
+
 def run(ctx):
     from ckl.date import to_oa_date, to_date
     from ckl import values as V
@@ -260,6 +298,9 @@ def run(ctx):
     ctx.sample({"day_number": 25569, "date": "1970-01-01"})
     ctx.sample({"program": "(d + k) - k == d", "d": "2024-02-29", "k": 366})
     ctx.sample({"boundary_days_checked": len(days)})
+    # ---------------- date programs on the model EVALUATOR (date + n, date - n, date - date, int(date), date(int), date('yyyymmdd…'),
+    # comparisons; first / last days of years, large and negative offsets, times of day) on the real base environment vs the implementation
+    evaluator_correspondence(ctx)
     common.replay_known(ctx)
 
 
